@@ -480,6 +480,91 @@ func ruleParseReset(c *Ctx) {
 		return true
 	})
 	c.Check(okAll && n >= 1, "Object.Parse:index-reset", p.Pos(fd), "a reused Elements.Index is emptied by ranging over itself", "the reused index is not emptied completely ("+why+"): keys of an earlier object survive and Lookup returns an unrelated element or indexes out of range", "Parse two objects with different key sets into the same Elements, then Lookup a key of the first")
+	// ... and on every path: the first entry stored into the index is stored into a map that was made for this call or
+	// emptied completely (a reset that runs later, or only under a size comparison, lets entries of the previous
+	// object survive next to the new ones: duplicate keys make len(Index) <= len(Elements) although stale keys remain)
+	{
+		resetLoops := map[ast.Stmt]bool{}
+		ast.Inspect(fd.Body, func(nd ast.Node) bool {
+			rs, ok := nd.(*ast.RangeStmt)
+			if !ok || len(rs.Body.List) != 1 {
+				return true
+			}
+			es, ok := rs.Body.List[0].(*ast.ExprStmt)
+			if !ok {
+				return true
+			}
+			call, ok := es.X.(*ast.CallExpr)
+			if !ok || p.CalleeName(call) != "delete" || len(call.Args) != 2 || !p.sameExpr(rs.X, call.Args[0]) {
+				return true
+			}
+			key, _ := rs.Key.(*ast.Ident)
+			arg, _ := ast.Unparen(call.Args[1]).(*ast.Ident)
+			if key != nil && arg != nil && p.ObjOf(key) == p.ObjOf(arg) {
+				resetLoops[rs] = true
+			}
+			return true
+		})
+		isIndexStore := func(nd ast.Node) bool {
+			as, ok := nd.(*ast.AssignStmt)
+			if !ok || len(as.Lhs) != 1 {
+				return false
+			}
+			ix, ok := as.Lhs[0].(*ast.IndexExpr)
+			return ok && strings.HasSuffix(p.Str(ix.X), ".Index")
+		}
+		fg := p.FGOf(fd)
+		paths, okp := fg.EnumPaths(0, 0, 1, 4000, isIndexStore)
+		if !okp {
+			c.Undecided("Object.Parse:index-reset:paths", p.Pos(fd), "too many paths to the first index store")
+		}
+		nStore, bad := 0, ""
+		for _, pa := range paths {
+			if len(pa.Evs) == 0 || pa.Evs[len(pa.Evs)-1].Node == nil || !isIndexStore(pa.Evs[len(pa.Evs)-1].Node) {
+				continue
+			}
+			nStore++
+			clean := false
+			for _, ev := range pa.Evs[:len(pa.Evs)-1] {
+				if ev.Br != nil {
+					if ev.Br.Kind == "range" && !ev.Taken && ev.Br.Block != nil && resetLoops[ev.Br.Block.Stmt] {
+						clean = true
+					}
+					continue
+				}
+				if ev.Node == nil {
+					continue
+				}
+				ast.Inspect(ev.Node, func(m ast.Node) bool {
+					call, ok := m.(*ast.CallExpr)
+					if !ok {
+						return true
+					}
+					if id, ok := call.Fun.(*ast.Ident); ok {
+						if _, isBuiltin := p.Info.Uses[id].(*types.Builtin); isBuiltin {
+							if id.Name == "clear" && len(call.Args) == 1 && strings.HasSuffix(p.Str(call.Args[0]), ".Index") {
+								clean = true
+							}
+							if id.Name == "make" && len(call.Args) >= 1 {
+								if tv, ok := p.Info.Types[call.Args[0]]; ok {
+									if _, isMap := tv.Type.Underlying().(*types.Map); isMap {
+										if _, isAssign := ev.Node.(*ast.AssignStmt); isAssign {
+											clean = true
+										}
+									}
+								}
+							}
+						}
+					}
+					return true
+				})
+			}
+			if !clean && bad == "" {
+				bad = fg.Describe(pa, 6)
+			}
+		}
+		c.Check(nStore >= 1 && bad == "", "Object.Parse:index-reset:paths", p.Pos(fd), "every path to the first index store has made or emptied the index", "an entry is stored into a reused index that was not emptied first on this path ("+bad+"): keys of an earlier object survive whenever the later reset is skipped, and Lookup returns an unrelated element or indexes out of range", "Parse {\"b\":1} and then {\"a\":1,\"a\":2} into the same Elements, then Lookup(\"b\")")
+	}
 	// Index[name] = len(Elements) taken before the append
 	okIdx := false
 	ast.Inspect(fd.Body, func(nd ast.Node) bool {
